@@ -311,10 +311,11 @@ fn worker_main(check: &dyn Check, a: &Args, k: u64, w: u64) -> ! {
     progress.set(u64::MAX - 1);
     // samples: re-run a few non-trivial cases with recording on (worker 0 only)
     let mut samples: Vec<Value> = Vec::new();
-    if k == 0 {
+    if k < 4 {
         if sample_cases.is_empty() && total > 0 {
-            sample_cases.push(0);
+            sample_cases.push(k);
         }
+        sample_cases.truncate(if k == 0 { 3 } else { 1 });
         for &c in &sample_cases {
             let dec = Dec::from_seed(case_seed(a.seed, check.id(), c));
             let out = check.run(c, dec, &RunOpts { record: true, tier: a.tier });
@@ -635,7 +636,7 @@ fn parent_main(check: &dyn Check, a: &Args) -> ! {
         "distinct_cases_total": m.shapes.len(),
         "nontrivial_runs": m.nontrivial_runs,
         "rule": check.rule(),
-        "samples": m.samples,
+        "samples": m.samples.iter().take(4).cloned().collect::<Vec<Value>>(),
         "exhaustive": check.exhaustive(a.tier),
         "runs_per_hour": if wall > 0.0 { (m.runs as f64 / wall * 3600.0) as u64 } else { 0 },
         "seeds_per_hour": if wall > 0.0 { (m.runs as f64 / wall * 3600.0) as u64 } else { 0 },
